@@ -53,7 +53,7 @@ pub async fn run_case(case: &Case, window: Duration, max: usize) -> Obs {
             End::Quiet => {
                 tokio::time::sleep(Duration::from_secs(3600)).await;
             }
-            End::Eof => {
+            End::Eof | End::EofHold => {
                 let _ = tls.shutdown().await; // close_notify + FIN
             }
             End::Abort => {
